@@ -4,6 +4,7 @@ import (
 	"context"
 	"fmt"
 	"math"
+	"runtime"
 	"sync"
 	"sync/atomic"
 	"testing"
@@ -685,6 +686,14 @@ func TestC01Limiter(t *testing.T) {
 }
 
 // concurrent stress: holders counted by the harness never exceed the largest limit in force, no refusal with room at quiescence
+func busyOf(st core.Strategy) int {
+	type b interface{ GetBusyCount() int }
+	if x, ok := st.(b); ok {
+		return x.GetBusyCount()
+	}
+	return 0
+}
+
 func TestC01Stress(t *testing.T) {
 	rep := NewReport("C01stress")
 	defer rep.Write(t)
@@ -698,7 +707,7 @@ func TestC01Stress(t *testing.T) {
 		}
 		sl := limit.NewSettableLimit("s", 2, nil)
 		lim, _ := limiter.NewDefaultLimiter(sl, 1e6, 1e6, 0, 10, st, nil, core.EmptyMetricRegistryInstance)
-		var holders, maxHolders, grants, refusals int64
+		var holders, maxHolders, maxBusy, grants, refusals int64
 		const maxLimit = 3
 		stop := make(chan struct{})
 		var wg sync.WaitGroup
@@ -714,7 +723,17 @@ func TestC01Stress(t *testing.T) {
 					}
 					ls, ok := lim.Acquire(context.Background())
 					if ok {
+						// the strategy's own count can never exceed the largest limit ever in force (admission requires busy < limit)
+						if b := int64(busyOf(st)); b > maxLimit {
+							for {
+								m := atomic.LoadInt64(&maxBusy)
+								if b <= m || atomic.CompareAndSwapInt64(&maxBusy, m, b) {
+									break
+								}
+							}
+						}
 						h := atomic.AddInt64(&holders, 1)
+						runtime.Gosched()
 						for {
 							m := atomic.LoadInt64(&maxHolders)
 							if h <= m || atomic.CompareAndSwapInt64(&maxHolders, m, h) {
@@ -754,6 +773,9 @@ func TestC01Stress(t *testing.T) {
 		rep.Evaluations += int(grants + refusals)
 		rep.Distinct("stress-run", fmt.Sprint(kind, grants > 0, refusals > 0))
 		rep.Count(fmt.Sprintf("%s.grants", stratNames[kind]))
+		if maxBusy > maxLimit {
+			rep.Violate(stratNames[kind]+":stress-over-admission", fmt.Sprintf("the strategy counted %d tokens in flight with limits never above %d", maxBusy, maxLimit), map[string]interface{}{"kind": kind, "max_busy": maxBusy})
+		}
 		if maxHolders > maxLimit {
 			rep.Violate(stratNames[kind]+":stress-over-admission", fmt.Sprintf("%d simultaneous holders with limits never above %d", maxHolders, maxLimit), map[string]interface{}{"kind": kind, "max_holders": maxHolders})
 		}
